@@ -3,14 +3,14 @@
 (* Validation of Split / Zip executions recorded from the real code on     *)
 (* configurations beyond the exhaustive bounds (more branches, random      *)
 (* mutator chains, longer flows):                                          *)
-(*   [brs, N, bs, drv, rq, outs]   outs[b] = what branch b yielded         *)
+(*   [brs, N, bs, drv, rq, shape, outs]   outs[b] = what branch b yielded  *)
 (* Every branch must have yielded what it yields alone (IsolationSem!Alone).  *)
 (***************************************************************************)
 EXTENDS IsolationSem, Json, IOUtils
 Trace == JsonDeserialize(IOEnv.TRACE_FILE)
 VARIABLE i
 Ok(r) == /\ Len(r.outs) = Len(r.brs)
-         /\ \A b \in 1..Len(r.brs) : r.outs[b] = Alone(r.brs[b], Flow(r.N), r.bs)
+         /\ \A b \in 1..Len(r.brs) : r.outs[b] = Alone(r.brs[b], FlowS(r.N, r.shape), r.bs)
 TInit == i = 1
 TNext == i <= Len(Trace) /\ Ok(Trace[i]) /\ i' = i + 1
 TSpec == TInit /\ [][TNext]_i
